@@ -587,7 +587,8 @@ func reapplyOverwrittenContainers(finalPod *corev1.Pod, originalPod *corev1.Pod,
 		finalPod.Annotations[annotation.ProxyOverrides.Name] = string(js)
 	}
 
-	adjustInitContainerUser(finalPod, originalPod, proxyConfig)
+	// Only an istio-proxy customisation that was actually applied above may drive the init container's uid.
+	adjustInitContainerUser(finalPod, FindContainer(ProxyContainerName, overrides.AllContainers()), proxyConfig)
 
 	return finalPod, nil
 }
@@ -595,8 +596,7 @@ func reapplyOverwrittenContainers(finalPod *corev1.Pod, originalPod *corev1.Pod,
 // adjustInitContainerUser adjusts the RunAsUser/Group fields and iptables parameter "-u <uid>"
 // in the init/validation container so that they match the value of SecurityContext.RunAsUser/Group
 // when it is present in the custom istio-proxy container supplied by the user.
-func adjustInitContainerUser(finalPod *corev1.Pod, originalPod *corev1.Pod, proxyConfig *meshconfig.ProxyConfig) {
-	userContainer := FindSidecar(originalPod)
+func adjustInitContainerUser(finalPod *corev1.Pod, userContainer *corev1.Container, proxyConfig *meshconfig.ProxyConfig) {
 	if userContainer == nil {
 		// if user doesn't override the istio-proxy container, there's nothing to do
 		return
